@@ -127,31 +127,6 @@ fn subtree_has_count_filter(n: &Node) -> bool {
     found
 }
 
-fn used_vars(q: &Query) -> BTreeSet<String> {
-    let mut out = BTreeSet::new();
-    for_each_node(&q.node, &mut |x| {
-        for f in &x.fields {
-            match f {
-                Field::Prop { dirs, .. } => {
-                    for d in dirs {
-                        if let Dir::Filter(_, Arg::Var(v)) = d {
-                            out.insert(v.clone());
-                        }
-                    }
-                }
-                Field::Edge { kind: Kind::Fold(fds), .. } => {
-                    for d in fds {
-                        if let FDir::CountFilter(_, Arg::Var(v)) = d {
-                            out.insert(v.clone());
-                        }
-                    }
-                }
-                _ => {}
-            }
-        }
-    });
-    out
-}
 
 fn output_names(q: &Query) -> Vec<String> {
     let mut out = vec![];
